@@ -1,6 +1,7 @@
 """C20 — listener bandwidth limits bound throughput per direction without altering data."""
 import json
 import os
+import re
 
 from . import common
 
@@ -16,6 +17,11 @@ KINDS = {  # shard prefix -> (jsonl file, label used in violation keys)
 
 def load_jsonl(p):
     return [json.loads(l) for l in open(p)] if os.path.exists(p) else []
+
+
+def nlist(text):
+    """'[1; 2]' / '[1%N; 2%N]' / '[]' -> [1, 2]"""
+    return [int(x) for x in re.findall(r"\d+", text or "")]
 
 
 def run(ctx):
@@ -39,7 +45,6 @@ def run(ctx):
             rc2, oblog = ctx.coqc(GROUP, "Obligations.v")
             oblog = " ".join(oblog.split())[-400:]
             src = open(os.path.join(common.VERIF, "coq", GROUP, "Obligations.v")).read().splitlines()
-            import re
             m = re.search(r"line (\d+)", oblog)
             name = None
             if m:
@@ -80,11 +85,11 @@ def run(ctx):
                 basei = idx * meta["shard_size"]
                 src = srcs[kind]
                 for ident, acc in (("M", model_bad), ("P", prop_bad)):
-                    for i in (ctx.parse_nlist(r.get(ident)) or []):
+                    for i in nlist(r.get(ident)):
                         case = src[basei + i] if basei + i < len(src) else {"index": basei + i}
                         acc.append((kind, case))
             for e in meta.get("e2e") or []:
-                if e.get("err"):
+                if e.get("err") and not e["err"].startswith("timeout"):
                     ob_failed.append("end-to-end transfer could not be completed (%s): %s" % (json.dumps(e["spec"]), e["err"]))
 
     def smallest(cases):
@@ -111,7 +116,6 @@ def run(ctx):
 
     n_ob = len(info["theorems"])
     ob_src = common.strip_coq_comments(open(os.path.join(common.VERIF, "coq", GROUP, "Obligations.v")).read())
-    import re
     table_obs = re.findall(r"\bLemma\s+(ob_[A-Za-z0-9_']+)", ob_src)
     tables_ok = "Obligations.v" not in failed
     evals = sum(int(meta.get(k, 0)) for k in ("limiter_cases", "mapping_cases", "conn_cases", "e2e_cases"))
